@@ -50,6 +50,9 @@ func checkRuntime(c *Ctx, prop string) {
 	if prop == "C04" || prop == "C05" {
 		rtReuse(c, c.scale(80, 2500))
 	}
+	if prop == "C04" {
+		rtSkipInitEqual(c, c.scale(10, 100))
+	}
 	if prop == "C06" || prop == "C05" {
 		rtZeroSize(c, c.scale(20, 400))
 	}
